@@ -129,6 +129,8 @@ type ostack struct {
 	rng   *vio.RNG
 	bopen bool
 	uses  int
+	it      scom.StoreIterator // recorded histories: the open iterator
+	itStrip bool
 }
 
 func raw(k []byte) []byte { return append([]byte{stPrefix}, k...) }
@@ -221,10 +223,33 @@ type okv struct {
 	V string `json:"v"`
 }
 
+// otherKey: a key for an interleaved read - alphabet keys, every prefix candidate, and a few foreign ones of several lengths.
+func (s *ostack) otherKey() []byte {
+	var pool [][]byte
+	pool = append(pool, s.kv.keys...)
+	pool = append(pool, bs("", "c1", "a3", "b", "zz", "\x00", "\x05", "\xff", "b1", "abcd")...)
+	return append([]byte{}, pool[s.rng.Intn(len(pool))]...)
+}
+
+// interleavedReads: 0..n reads at either layer while an iterator is open (reads change nothing in the model).
+func (s *ostack) interleavedReads(n int) {
+	for i := s.rng.Intn(n + 1); i > 0; i-- {
+		if s.rng.Intn(4) == 0 {
+			s.ov.Get(raw(s.otherKey()))
+		} else {
+			s.cdb.Get(s.otherKey())
+		}
+	}
+}
+
+// walk: First()/Next()... on an open iterator, with reads interleaved between the Next() calls.
 func (s *ostack) walk(it scom.StoreIterator, stripPrefix bool) interface{} {
 	defer it.Release()
 	res := []okv{}
 	for ok := it.First(); ok; ok = it.Next() {
+		if s.rng.Intn(3) == 0 {
+			s.interleavedReads(1)
+		}
 		k := it.Key()
 		if stripPrefix {
 			if len(k) == 0 || k[0] != stPrefix {
@@ -320,10 +345,34 @@ func (s *ostack) apply(op string, a []int, v string) interface{} {
 	case "batchcommit":
 		vio.Must(s.ldb.BatchCommit())
 		return ""
-	case "tscan":
-		return s.walk(s.cdb.NewIterator(s.prefixFor(a[0], a[1])), false)
+	case "tscan": // NewIterator; 0..2 reads of other keys; First()/Next()...
+		it := s.cdb.NewIterator(s.prefixFor(a[0], a[1]))
+		s.interleavedReads(2)
+		return s.walk(it, false)
 	case "bscan":
-		return s.walk(s.ov.NewIterator(raw(s.prefixFor(a[0], a[1]))), true)
+		it := s.ov.NewIterator(raw(s.prefixFor(a[0], a[1])))
+		s.interleavedReads(2)
+		return s.walk(it, true)
+	case "tscanw": // NewIterator; reads and one Put/Delete of a key outside the scanned range; First()/Next()...
+		it := s.cdb.NewIterator(s.prefixFor(a[0], a[1]))
+		s.interleavedReads(1)
+		s.apply("tput", []int{a[2]}, v)
+		s.interleavedReads(1)
+		return s.walk(it, false)
+	case "topen", "bopen": // recorded histories: the iterator stays open across the following events
+		if s.it != nil {
+			s.it.Release()
+		}
+		if op == "topen" {
+			s.it, s.itStrip = s.cdb.NewIterator(s.prefixFor(a[0], a[1])), false
+		} else {
+			s.it, s.itStrip = s.ov.NewIterator(raw(s.prefixFor(a[0], a[1]))), true
+		}
+		return ""
+	case "walk":
+		it := s.it
+		s.it = nil
+		return s.walk(it, s.itStrip)
 	}
 	panic("unknown op " + op)
 }
@@ -456,11 +505,18 @@ type oedge struct {
 	Post opost           `json:"post"`
 }
 
+func minI(a, b int) int {
+	if a < b {
+		return a
+	}
+	return b
+}
+
 func pickVariant(k int, op string, a []int, salt uint64) *keyVariant {
 	vs := variantSets[k]
 	var ok []*keyVariant
 	for _, v := range vs {
-		if op == "tscan" || op == "bscan" {
+		if op == "tscan" || op == "bscan" || op == "tscanw" {
 			lo, hi := a[0], a[1]
 			if lo > hi {
 				lo, hi = 1, 0
@@ -491,7 +547,7 @@ func overlayEdges(k int, mode string) {
 			vio.Fatal("bad edge: %v", err)
 		}
 		salt := (uint64(i) + 1) * (seed*2654435761 + 12345)
-		kv := pickVariant(k, e.Op, e.A, salt>>7)
+		kv := pickVariant(k, e.Op, e.A[:minI(len(e.A), 2)], salt>>7)
 		var got interface{}
 		var post opost
 		var bad string
@@ -549,7 +605,7 @@ func overlayEdges(k int, mode string) {
 		}
 		mu.Lock()
 		defer mu.Unlock()
-		nontrivial := len(e.H.Ops) > 0 || e.Op == "tscan" || e.Op == "bscan" || e.Op == "flush"
+		nontrivial := len(e.H.Ops) > 0 || e.Op == "tscan" || e.Op == "bscan" || e.Op == "tscanw" || e.Op == "flush"
 		if nontrivial {
 			distinct[e.Op+fmt.Sprint(e.A)+e.V+normRaw(e.Obs)+norm(e.Post)] = true
 		}
@@ -632,12 +688,32 @@ func overlayRecord(n, length int) {
 				op, a = "tget", []int{1 + rng.Intn(K)}
 			case r < 50:
 				op, a = "bget", []int{1 + rng.Intn(K)}
-			case r < 65:
+			case r < 58:
 				lo, hi := st.randomRange()
 				op, a = "tscan", []int{lo, hi}
-			case r < 77:
+			case r < 64:
 				lo, hi := st.randomRange()
 				op, a = "bscan", []int{lo, hi}
+			case r < 77:
+				// iterator life cycle: open; 0..3 reads / out-of-range writes as separate events; walk
+				lo, hi := st.randomRange()
+				op = []string{"topen", "topen", "bopen"}[rng.Intn(3)]
+				st.apply(op, []int{lo, hi}, "")
+				vio.Emit(map[string]interface{}{"op": op, "a": []int{lo, hi}, "v": "", "obs": ""})
+				for j := rng.Intn(4); j > 0; j-- {
+					k := 1 + rng.Intn(K)
+					iop, iv := []string{"tget", "bget", "tput", "bput"}[rng.Intn(4)], ""
+					if iop == "tput" || iop == "bput" {
+						if k >= lo && k <= hi {
+							iop = "tget" // writes only outside the scanned range
+						} else {
+							iv = vals[rng.Intn(3)]
+						}
+					}
+					o := st.apply(iop, []int{k}, iv)
+					vio.Emit(map[string]interface{}{"op": iop, "a": []int{k}, "v": iv, "obs": o})
+				}
+				op, a = "walk", []int{}
 			case r < 85:
 				op = "tcommit"
 			case r < 90:
